@@ -65,4 +65,18 @@ instance : StrictWeak default_order_check where
 theorem bfalse_of_iff {lt : Order} {P : HTag → HTag → Prop} (h : ∀ a b, lt a b = true ↔ P a b) (a b : HTag) :
     lt a b = false ↔ ¬ P a b := bfalse h a b
 
+/-! ### none of the ordering functions looks at the hash back-pointer -/
+
+theorem ignoresHidx_of_iff {lt : Order} {P : HTag → HTag → Prop} (h : ∀ a b, lt a b = true ↔ P a b)
+    (hP : ∀ (a b : HTag) (x y : Nat), P { a with hidx := x } { b with hidx := y } ↔ P a b) : IgnoresHidx lt := by
+  constructor
+  intro a b x y
+  rw [Bool.eq_iff_iff, h, h]
+  exact hP a b x y
+
+instance : IgnoresHidx heap_order_check := ignoresHidx_of_iff heap_order_check_iff (fun _ _ _ _ => Iff.rfl)
+instance : IgnoresHidx holder_queue_check := ignoresHidx_of_iff holder_queue_check_iff (fun _ _ _ _ => Iff.rfl)
+instance : IgnoresHidx compare_func := ignoresHidx_of_iff compare_func_iff (fun _ _ _ _ => Iff.rfl)
+instance : IgnoresHidx default_order_check := ignoresHidx_of_iff default_order_check_iff (fun _ _ _ _ => Iff.rfl)
+
 end CimbaModel.HashHeap.Orders
